@@ -93,7 +93,7 @@ def run(ctx):
     # below (needed to make deletions effective) then only scan what the histories create
     for nm, pr in BKS: pyhf.set_backend(nm, precision=pr)
     gc.collect(); gc.freeze()
-    for h in range(ctx.n(40, 400)):
+    for h in range(ctx.n(40, 280)):
         gc.collect()
         cur = 0
         pyhf.set_backend(*[BKS[0][0]], precision=BKS[0][1]); gc.collect()
